@@ -124,7 +124,7 @@ Proof. intros H n Hn. apply (bin_ok_placed khash _ _ _ _ H Hn). Qed.
 Lemma bin_find_lookup len i b k :
   bin_ok khash len i b -> bin_find b (khash k) k = lookup (bin_nodes b) k.
 Proof.
-  intros H. pose proof (bin_ok_hk _ _ _ H) as Hk. destruct b as [|l|t|]; cbn [bin_find bin_nodes] in *.
+  intros H. pose proof (bin_ok_hk _ _ _ H) as Hk. destruct b as [|l|t|]; cbn [bin_find bin_nodes] in Hk |- *.
   - reflexivity.
   - apply lb_find_lookup; exact Hk.
   - destruct H as [H _]. rewrite Hyp_find by exact H. apply lb_find_lookup; exact Hk.
@@ -135,8 +135,8 @@ Lemma get_node_some_tbl t sc0 cnt0 k :
   WFT khash t ->
   get_node khash (mkSt (Some t) sc0 cnt0) k = bin_find (get_bin t (bini t (khash k))) (khash k) k.
 Proof.
-  intros H. pose proof (WFT_len_pos khash t H). unfold get_node. cbn [tbl].
-  destruct t; [cbn [length] in *; lia|reflexivity].
+  intros H. pose proof (WFT_len_pos khash t H) as Hpos. unfold get_node. cbn [tbl].
+  destruct t; [cbn [length] in Hpos; lia|reflexivity].
 Qed.
 
 Lemma get_node_lookup s k : WFS s -> get_node khash s k = lookup (nodes s) k.
@@ -236,7 +236,7 @@ Proof.
     - intros x Hx. assert (Hin : In x l).
       { eapply Permutation_in; [exact Hperm|]. apply in_or_app; right; exact Hx. }
       pose proof (placed_split khash j i x (Hp x Hin)) as P. fold n in P. rewrite (Hhi x Hx) in P. exact P. }
-  destruct b as [|l|t|]; cbn [split_bin bin_ok bin_nodes] in *.
+  destruct b as [|l|t|]; cbn [split_bin bin_ok bin_nodes] in Hok, Hd |- *.
   - cbn [fst snd bin_ok bin_nodes app]. split; [trivial|]. split; [trivial|constructor].
   - destruct Hok as [Hne Hp]. destruct (lb_split n l) as [lo hi] eqn:E.
     apply lb_split_spec in E as (Hperm & Hlo & Hhi).
@@ -438,7 +438,7 @@ Proof.
   destruct (try_presize_busy (sc s)); [apply grows_refl; exact H|].
   destruct (tbl s) as [[|b t]|] eqn:Et.
   - exfalso. unfold WFS in H. rewrite Et in H. destruct H as [Ht _].
-    pose proof (WFT_len_pos khash _ Ht). cbn [length] in *. lia.
+    pose proof (WFT_len_pos khash _ Ht) as Hpos. cbn [length] in Hpos. lia.
   - destruct (try_presize_stop c (sc s) (tlen (b :: t))) eqn:Es; [apply grows_refl; exact H|].
     unfold try_presize_stop in Es. apply orb_false_iff in Es as [_ Es].
     rewrite Z.geb_leb in Es; apply Z.leb_gt in Es.
@@ -510,8 +510,8 @@ Proof.
   intros H Et Hd Hs. unfold add_count. set (s1 := mkSt (tbl s) (sc s) (add_count_stored (cnt s) d)).
   assert (H1 : WFS s1) by exact H.
   assert (Hs1 : sized s1).
-  { unfold sized in *. unfold s1. cbn [tbl sc cnt]. rewrite add_count_stored_eq.
-    rewrite Et in *. lia. }
+  { unfold sized in Hs |- *. unfold s1. cbn [tbl sc cnt]. rewrite add_count_stored_eq.
+    rewrite Et in Hs. rewrite Et. lia. }
   destruct hint; [|exact Hs1]. apply (grow_loop_grows 40 s1 _ H1). exact Hs1.
 Qed.
 
@@ -522,8 +522,8 @@ Proof.
   change (add_count_local (cnt s) 1) with (cnt s1).
   apply (grow_loop_sized 40 s1 t H1 Et).
   unfold WFS in H. rewrite Et in H. destruct H as [Ht _].
-  pose proof (WFT_len_bounds khash t Ht) as Hb. rewrite MAXIMUM_CAPACITY_eq in *.
-  change (2 ^ Z.of_nat 40) with 1099511627776. change (2 ^ 30) with 1073741824 in *. lia.
+  pose proof (WFT_len_bounds khash t Ht) as Hb. rewrite MAXIMUM_CAPACITY_eq in Hb |- *.
+  change (2 ^ Z.of_nat 40) with 1099511627776. change (2 ^ 30) with 1073741824 in Hb |- *. lia.
 Qed.
 
 (* ------------------------------------------------------------------------------------------ *)
@@ -628,7 +628,7 @@ Lemma bin_remove_ok len i b k :
   bin_nodes (bin_remove b (khash k) k) = lb_remove (bin_nodes b) (khash k) k.
 Proof.
   intros Hok Hf. pose proof (bin_ok_hk _ _ _ Hok) as Hk.
-  destruct b as [|l|t|]; cbn [bin_ok bin_remove bin_nodes lb_remove] in *.
+  destruct b as [|l|t|]; cbn [bin_ok bin_remove bin_nodes lb_remove] in Hok, Hf, Hk |- *.
   - tauto.
   - destruct Hok as [Hne Hp]. rewrite bin_nodes_of_list. split; [|reflexivity].
     apply of_list_ok. intros n Hn. apply Hp. eapply lb_remove_in; exact Hn.
@@ -690,9 +690,9 @@ Proof.
   - apply WF_iff. split; [apply Hg|]. rewrite (grows_length s1 s2 Hg), Hlen1.
     destruct Hg as (_ & _ & -> & _). exact Hc.
   - intros k'. rewrite (grows_lookup s1 s2 k' Hs1 Hg). apply Hlk.
-  - destruct Hg as (_ & _ & _ & G & _). unfold tlen_s in *. unfold s1 in G. cbn [tbl] in G.
+  - destruct Hg as (_ & _ & _ & G & _). unfold tlen_s in G |- *. unfold s1 in G. cbn [tbl] in G.
     rewrite tlen_set_bin in G by exact Hi. rewrite Et. exact G.
-  - intros Hz. apply Hg. unfold sized, s1 in *. cbn [tbl sc cnt]. rewrite Et in Hz.
+  - intros Hz. apply Hg. unfold sized, s1 in Hz |- *. cbn [tbl sc cnt]. rewrite Et in Hz.
     rewrite tlen_set_bin by exact Hi. exact Hz.
 Qed.
 
@@ -790,7 +790,7 @@ Proof.
   - unfold tlen_s in A4 at 1. unfold s1 in A4 at 1. cbn [tbl] in A4.
     rewrite tlen_set_bin in A4 by exact Hi. unfold tlen_s at 1. rewrite Et. exact A4.
   - intros Hz. apply (add_count_sized_dec s1 (-1) hint (set_bin t i b') Hs1 eq_refl); [lia|].
-    unfold sized, s1 in *. cbn [tbl sc cnt]. rewrite Et in Hz. rewrite tlen_set_bin by exact Hi. exact Hz.
+    unfold sized, s1 in Hz |- *. cbn [tbl sc cnt]. rewrite Et in Hz. rewrite tlen_set_bin by exact Hi. exact Hz.
   - intros ->. unfold tlen_s. rewrite add_count_nohint_tbl. unfold s1. cbn [tbl]. rewrite Et.
     apply tlen_set_bin. exact Hi.
 Qed.
@@ -820,7 +820,7 @@ Lemma init_table_ok s :
   (sized s -> sized (init_table s)).
 Proof.
   intros H. unfold init_table. destruct (tbl s) as [[|b t]|] eqn:Et.
-  - exfalso. pose proof (WFT_len_pos khash _ (WF_some s [] H Et)). cbn [length] in *. lia.
+  - exfalso. pose proof (WFT_len_pos khash _ (WF_some s [] H Et)) as Hpos. cbn [length] in Hpos. lia.
   - split; [exact H|]. split; [reflexivity|]. split; [exists (b :: t); exact Et|].
     split; [reflexivity|]. split; [lia|tauto].
   - pose proof H as H0. apply WF_iff in H0 as [Hs Hc]. unfold WFS in Hs. rewrite Et in Hs.
@@ -924,7 +924,7 @@ Proof.
     intros k'. rewrite abs_wf by exact F1. rewrite F2. unfold aupd. rewrite Habs0, abs_wf by exact H.
     change (nk e) with k. destruct (k' =? k)%N; reflexivity. }
   clearbody s. clear Hm. subst h.
-  destruct (get_bin t i0) as [|l|b|] eqn:Eb; cbn [bin_nodes] in *.
+  destruct (get_bin t i0) as [|l|b|] eqn:Eb; cbn [bin_nodes] in Hok, Hk, Hlb, Hsame, Hset, Hadd |- *.
   - (* empty bin *)
     apply (Hadd (BList [e]) _ eq_refl).
     + cbn [bin_ok]. split; [discriminate|]. intros n [<-|[]]. apply placed_new.
@@ -970,8 +970,8 @@ Lemma remove_some s t k :
                        (sc s) (cnt s)) (-1) false, Some n)
   end.
 Proof.
-  intros H Et. unfold Seq.remove. rewrite Et. pose proof (WFT_len_pos khash t (WF_some s t H Et)).
-  destruct t; [cbn [length] in *; lia|reflexivity].
+  intros H Et. unfold Seq.remove. rewrite Et. pose proof (WFT_len_pos khash t (WF_some s t H Et)) as Hpos.
+  destruct t; [cbn [length] in Hpos; lia|reflexivity].
 Qed.
 
 Lemma remove_ok s k :
@@ -1081,7 +1081,7 @@ Proof.
   intros (Hp & Hb & Hd). split; [|split].
   - rewrite map_length. exact Hp.
   - intros i b Hi. rewrite nth_error_map in Hi. destruct (nth_error t i) as [b0|] eqn:E; [|discriminate].
-    injection Hi as <-. specialize (Hb i b0 E). destruct b0; cbn [clear_bin bin_ok] in *; tauto.
+    injection Hi as <-. specialize (Hb i b0 E). destruct b0; cbn [clear_bin bin_ok] in Hb |- *; tauto.
   - rewrite nodes_clear. constructor.
 Qed.
 
@@ -1280,7 +1280,7 @@ Theorem remove_refines s k :
   tlen_s (fst (step khash remap keep s (RemoveEntry k))) = tlen_s s.
 Proof.
   intros H. destruct (remove_ok s k H) as (R1 & R2 & R3 & R4 & R5). cbn [step spec_state spec_out].
-  destruct (Seq.remove khash s k) as [s' r]. cbn [fst snd] in *.
+  destruct (Seq.remove khash s k) as [s' r]. cbn [fst snd] in R1, R2, R3, R4, R5 |- *.
   assert (Habs : forall x, abs khash s' x = adel (abs khash s) k x).
   { intros x. unfold adel. rewrite !abs_wf by assumption. rewrite R2. destruct (x =? k)%N; reflexivity. }
   rewrite (abs_wf s k H), <- R3.
@@ -1387,7 +1387,7 @@ Theorem step_refines s o :
   out = spec_out remap (abs khash s) o (Z.of_nat (length (nodes s))) (map entry (nodes s)).
 Proof.
   intros H. destruct (step_good s o H) as (G1 & G2 & G3 & _).
-  destruct (step khash remap keep s o) as [s' out]. cbn [fst snd] in *. tauto.
+  destruct (step khash remap keep s o) as [s' out]. cbn [fst snd] in G1, G2, G3 |- *. tauto.
 Qed.
 
 (* the reachable-state invariant "below the threshold unless full" is preserved as well *)
@@ -1420,7 +1420,7 @@ Proof.
     split; [constructor; reflexivity|]. split; [lia|tauto].
   - destruct (step_good s o H) as (G1 & G2 & G3 & G4 & G5).
     change (run_step (s, acc) o) with (let '(s', r) := step khash remap keep s o in (s', acc ++ [r])).
-    destruct (step khash remap keep s o) as [s1 r]. cbn [fst snd] in *.
+    destruct (step khash remap keep s o) as [s1 r]. cbn [fst snd] in G1, G2, G3, G4, G5 |- *.
     destruct (IH s1 (acc ++ [r]) G1) as (s' & outs & E & W & R & L & Zs).
     exists s', (r :: outs). rewrite E, <- app_assoc. split; [reflexivity|]. split; [exact W|].
     split; [|split; [lia|tauto]].
@@ -1536,6 +1536,10 @@ Proof.
   unfold tlen in M. cbn [length] in M. lia.
 Qed.
 
+Lemma try_presize_same s size b t :
+  tbl s = Some (b :: t) -> tlen_s (try_presize s size) = tlen_s s -> try_presize s size = s.
+Proof. unfold try_presize. apply presize_loop_same. Qed.
+
 Lemma treeify_change s t i :
   tbl s = Some t -> tlen_s (treeify_bin s i) <> tlen_s s -> treeify_resizes (tlen t) = true.
 Proof.
@@ -1550,7 +1554,7 @@ Lemma treeify_same s b t i :
   sc (treeify_bin s i) = sc s /\ cnt (treeify_bin s i) = cnt s.
 Proof.
   intros Et. unfold treeify_bin. rewrite Et. destruct (treeify_resizes _).
-  - intros E. unfold try_presize in *. rewrite (presize_loop_same _ _ _ _ _ Et E). split; reflexivity.
+  - intros E. rewrite (try_presize_same _ _ _ _ Et E). split; reflexivity.
   - intros _. destruct (get_bin (b :: t) i); split; reflexivity.
 Qed.
 
@@ -1582,7 +1586,7 @@ Proof.
   pose proof (WF_some _ t H Et) as Ht.
   assert (Hi : (bini t (khash k) < length t)%nat) by apply (WFT_bini_lt khash t _ Ht).
   assert (Hcons : exists b0 t0, t = b0 :: t0).
-  { pose proof (WFT_len_pos khash t Ht). destruct t as [|b0 t0]; [cbn [length] in *; lia|eauto]. }
+  { pose proof (WFT_len_pos khash t Ht) as Hpos. destruct t as [|b0 t0]; [cbn [length] in Hpos; lia|eauto]. }
   unfold put, growth_due. rewrite Einit, Et. set (i0 := bini t (khash k)) in *.
   (* the state with bin i0 replaced *)
   assert (Hs' : forall b', tlen_s (mkSt (Some (set_bin t i0 b')) (sc s) (cnt s)) = tlen t).
@@ -1604,21 +1608,21 @@ Proof.
     + destruct nr; cbn [fst].
       * unfold tlen_s. rewrite Et. congruence.
       * intros Hne. apply Htree in Hne as [Hb Hc]. right. split; [|exact Hc].
-        destruct (lb_pos l (khash k) k 1) as [c|] eqn:Ep.
+        revert Hb. destruct (lb_pos l (khash k) k 1) as [c|] eqn:Ep; intros Hb.
         -- apply lb_pos_bound in Ep. lia.
         -- apply lb_pos_find in Ep. congruence.
     + cbn [fst]. set (s1 := mkSt (Some (set_bin t i0 (BList (l ++ [N_ (khash k) k i v])))) (sc s) (cnt s)).
       set (s2 := if put_treeify (Z.of_nat (length l)) then treeify_bin s1 i0 else s1).
       intros Hne. destruct (Z.eq_dec (tlen_s s2) (tlen t)) as [E|E].
       * left. assert (Hsc : sc s2 = sc s /\ cnt s2 = cnt s).
-        { unfold s2 in *. destruct (put_treeify _); [|split; reflexivity].
+        { unfold s2 in E |- *. destruct (put_treeify _); [|split; reflexivity].
           destruct Hcons as (b0 & t0 & ->).
           assert (Ec : exists b1 t1, set_bin (b0 :: t0) i0 (BList (l ++ [N_ (khash k) k i v])) = b1 :: t1).
           { destruct i0; [rewrite set_bin_cons0|rewrite set_bin_consS]; eauto. }
           destruct Ec as (b1 & t1 & Ec).
           apply (treeify_same s1 b1 t1 i0); [unfold s1; cbn [tbl]; rewrite Ec; reflexivity|].
           rewrite E. symmetry. apply Hs'. }
-        rewrite <- E in Hne. apply add_count_inc_change in Hne. destruct Hsc as [-> ->] . exact Hne.
+        rewrite <- E in Hne. apply add_count_inc_change in Hne. destruct Hsc as [E1 E2]. rewrite E1, E2 in Hne. exact Hne.
       * right. apply (Htree _ _ E).
   - destruct (t_find (troot b) (khash k) k) as [n|].
     + destruct nr; cbn [fst].
@@ -1687,3 +1691,5 @@ Qed.
 
 End TreeFacts.
 End WithHash.
+
+About nodes_lists_abs. About wf_len. About remove_ok. About put_ok. About compute_ok. About retain_ok. About clear_ok. About reserve_ok. About readonly_refines. About with_capacity_wf. About compute_callback_before_write. About removal_never_grows. About compute_never_grows. About growth_only_when_due.
